@@ -224,7 +224,7 @@ func checkC09(c *ev.Ctx) {
 	}
 	depth := 4
 	if c.Thorough() {
-		depth = 5
+		depth = 6
 	}
 	runBFS(c, func(root string) bfs.World { return newC09World(c, root) }, roots, depth, 0)
 }
